@@ -780,3 +780,7 @@ for _n in range(1, 7):
 for _n in range(1, 7):
     B("C12", _n)
     MUTANTS.append(dict(prop="C13", name=f"benign-agent:C12-{_n}-under-C13", patch=f"selftest/patches/bn_C12_{_n}.diff", rule=None, benign=True))
+S("C11", "short-read-taken-for-eof", "C11-R8")
+S("C12", "deflate-fallback-only-on-first-call", "C12-R9")
+S("C13", "catcher-skips-close-when-response-closed", "C01-R6")
+S("C18", "key-freezes-mapping-keys-only", "C18-R4")
